@@ -218,6 +218,9 @@ func (r *Runner) replayLine(l *Line) lineResult {
 	if r.cfg.Fam == "lift" && l.Fam == "core" {
 		return r.replayLift(l)
 	}
+	if r.cfg.Fam == "lift" && l.Fam == "light" {
+		return r.replayLiftLight(l)
+	}
 	switch l.Fam {
 	case "core":
 		return r.replayCore(l)
